@@ -236,7 +236,9 @@ impl Ctx {
 
 const LONG: Duration = Duration::from_secs(60);
 const SHORT: Duration = Duration::from_millis(30);
-const PATIENCE_MS: u64 = 4000;
+/// how long the harness waits for a message that must come; when it does not (a loaded machine, or
+/// a real loss) the case ends with `"diverged"`, which the driver re-runs alone before it counts
+const PATIENCE_MS: u64 = 10_000;
 
 /// wait for the event the loop is about to process, the coroutines it resumes and their return
 fn observe_event(cx: &mut Ctx) -> Value {
@@ -423,6 +425,10 @@ pub fn run(case: &Value) -> Vec<Value> {
             }
             _ => json!("unknown-op"),
         };
+        if o == json!("lost") {
+            obs.push(json!("diverged"));
+            break;
+        }
         obs.push(o);
     }
     verif::set_observer(None);
